@@ -51,6 +51,15 @@ Theorem C15_cluster_connected :
 Proof. exact cluster_connected_lemma. Qed.
 Print Assumptions C15_cluster_connected.
 
+(* the inner `while j < points.len()` loop is executed by the model on a zipper; it is, outcome for outcome and
+   with the same fuel, the index loop with swap_remove(j) transcribed from track_finding.rs:198-204 *)
+Theorem C15_flood_zipper_is_index_loop :
+  forall (near : point -> point -> bool) fuel ci cluster pre_rev suf,
+  flood_jz near fuel ci cluster pre_rev suf
+  = flood_j_idx near fuel ci cluster (rev pre_rev ++ suf) (length pre_rev).
+Proof. exact flood_jz_index. Qed.
+Print Assumptions C15_flood_zipper_is_index_loop.
+
 (* the public wrapper: 13 points, fuel length + 1 *)
 Theorem C15_cluster_pub :
   forall (bins : point -> list bin) (near : point -> point -> bool),
